@@ -462,6 +462,17 @@ func c17Oracle(c *c17Case, fs []c17Feat) *Violation {
 	for _, w := range c.o.Ways {
 		f := feat[fmt.Sprintf("way/%d", w.ID)]
 		if f == nil {
+			// a way with tags of its own and at least two resolvable nodes is never swallowed by a relation
+			// (only untagged ways whose geometry is carried by a route/multipolygon feature are skipped)
+			resolvable := 0
+			for _, wn := range w.Nodes {
+				if wn.Lon != 0 || wn.Lat != 0 || nodeByID[wn.ID] != nil {
+					resolvable++
+				}
+			}
+			if resolvable >= 2 && c17Interesting(w.Tags) && outerOf[int(w.ID)] == 0 {
+				return &Violation{Signature: "way-feature-missing", Text: fmt.Sprintf("way %d has tags %v and %d resolvable nodes but no feature", w.ID, w.Tags, resolvable)}
+			}
 			continue
 		}
 		if outerOf[int(w.ID)] > 0 {
